@@ -876,6 +876,7 @@ func (s *AbsfsNFS) ReadDirPlus(dir *NFSNode) ([]*NFSNode, error) {
 			node.mu.RLock()
 			uid := node.attrs.Uid
 			gid := node.attrs.Gid
+			fileId := node.attrs.FileId
 			node.mu.RUnlock()
 
 			modTime := info.ModTime()
@@ -885,6 +886,7 @@ func (s *AbsfsNFS) ReadDirPlus(dir *NFSNode) ([]*NFSNode, error) {
 				Uid:  uid,
 				Gid:  gid,
 			}
+			attrs.FileId = fileId // keep the fileid LOOKUP and GETATTR report for this path
 			attrs.SetMtime(modTime)
 			attrs.SetAtime(modTime)
 			attrs.Refresh() // Initialize cache validity
